@@ -61,9 +61,14 @@ class SimTLSSocket(SimSocket, ssl.SSLSocket):      # type: ignore[misc]
         self._connected = True
         self._tls_eof = False
         if do_handshake_on_connect:
-            if timeout == 0.0:
-                raise ValueError('do_handshake_on_connect should not be specified for non-blocking sockets')
-            self.do_handshake()
+            # like ssl.SSLSocket._create: a failing handshake closes the socket before the error propagates
+            try:
+                if timeout == 0.0:
+                    raise ValueError('do_handshake_on_connect should not be specified for non-blocking sockets')
+                self.do_handshake()
+            except (OSError, ValueError):
+                self.close()
+                raise
         return self
 
     # -- attributes the standard class exposes -----------------------------------------------------
@@ -149,7 +154,11 @@ class SimTLSSocket(SimSocket, ssl.SSLSocket):      # type: ignore[misc]
                 raise
         self._push()
 
+    _unwrapped = False
+
     def send(self, data: Any, flags: int = 0) -> int:
+        if self._unwrapped:
+            return SimSocket.send(self, data, flags)
         if self._pend_plain:
             # retry of a write whose record was not completely out (it may have been completed by a read in between)
             if not self._push():
@@ -177,6 +186,8 @@ class SimTLSSocket(SimSocket, ssl.SSLSocket):      # type: ignore[misc]
         return self.send(data)
 
     def recv(self, bufsize: int = 1024, flags: int = 0) -> bytes:
+        if self._unwrapped:
+            return SimSocket.recv(self, bufsize, flags)
         while True:
             try:
                 return self._obj.read(bufsize)
@@ -221,10 +232,9 @@ class SimTLSSocket(SimSocket, ssl.SSLSocket):      # type: ignore[misc]
         except (ssl.SSLWantReadError, ssl.SSLWantWriteError):
             pass
         self._push()
-        s = SimSocket(self._sfamily, self._stype, self._sproto, fileno=self._sfd)
-        s._stimeout = self._stimeout
-        self.detach()
-        return s
+        # like ssl.SSLSocket.unwrap(): the object returned is this very socket, from now on without TLS
+        self._unwrapped = True
+        return self
 
     def shutdown(self, how: int) -> None:
         SimSocket.shutdown(self, how)
